@@ -236,6 +236,11 @@ func runC14(c *Ctx) {
 			mode = "write"
 		}
 		key := core.ShortFn(a.fn) + ": " + a.what + " of Classifier.values (" + mode + ")"
+		if h.Mode < need && callersHold(flows, a.fn, muValues, need, 0) {
+			// a helper that is documented to be called with the lock held: every call site in the package holds it
+			c.R.OK("R14.1", key+" holds muValues", p.Pos(a.in.Pos()), "the lock is held at every call site of "+a.fn.Name())
+			continue
+		}
 		if h.Mode >= need {
 			c.R.OK("R14.1", key+" holds muValues", p.Pos(a.in.Pos()), "locks held on every path: "+flows[a.fn].Before[a.in].String())
 		} else {
@@ -1085,8 +1090,23 @@ func checkPublishAfterInit(c *Ctx, p *core.Prog, fns []*ssa.Function, kvName, la
 	for _, f := range fns {
 		for _, b := range f.Blocks {
 			for _, in := range b.Instrs {
-				al, ok := in.(*ssa.Alloc)
-				if !ok || core.TypeName(al.Type()) != kvName || core.StructOf(al.Type()) == nil {
+				var al ssa.Value
+				switch x := in.(type) {
+				case *ssa.Alloc:
+					if core.TypeName(x.Type()) == kvName && core.StructOf(x.Type()) != nil {
+						al = x
+					}
+				case *ssa.Extract:
+					// the first result of a constructor of the package that hands out a value it allocated itself
+					if call, isCall := x.Tuple.(*ssa.Call); isCall && x.Index == 0 && core.TypeName(x.Type()) == kvName && freshConstructor(call.Call.StaticCallee(), kvName) {
+						al = x
+					}
+				case *ssa.Call:
+					if core.TypeName(x.Type()) == kvName && freshConstructor(x.Call.StaticCallee(), kvName) {
+						al = x
+					}
+				}
+				if al == nil || al.Referrers() == nil {
 					continue
 				}
 				var publish []ssa.Instruction
@@ -1094,11 +1114,11 @@ func checkPublishAfterInit(c *Ctx, p *core.Prog, fns []*ssa.Function, kvName, la
 				for _, r := range *al.Referrers() {
 					switch x := r.(type) {
 					case *ssa.MapUpdate:
-						if x.Value == ssa.Value(al) {
+						if x.Value == al {
 							publish = append(publish, x)
 						}
 					case *ssa.Store:
-						if x.Val == ssa.Value(al) {
+						if x.Val == al {
 							if _, isLocal := x.Addr.(*ssa.Alloc); !isLocal {
 								publish = append(publish, x)
 							}
@@ -1329,4 +1349,62 @@ func checkCompletionOrder(c *Ctx, p *core.Prog) {
 	}
 	c.R.Count("R14.12:receives of goroutine results", nRecv)
 	c.R.OK("R14.12", "v1: receives of goroutine results were looked for", scPkg, fmt.Sprintf("%d found", nRecv))
+}
+
+// callersHold: fn is an unexported function of the package whose every static call site (there is at least one, and the
+// function is not used as a value) holds the lock in at least the given mode - directly or, for a helper of a helper, at its
+// own call sites.
+func callersHold(flows map[*ssa.Function]*eng.LockFlow, fn *ssa.Function, key string, need int, depth int) bool {
+	if fn == nil || depth > 2 || fn.Object() == nil || fn.Object().Exported() {
+		return false
+	}
+	sites, escapes := eng.CallSitesOf(fn)
+	if escapes || len(sites) == 0 {
+		return false
+	}
+	for _, cs := range sites {
+		if _, isGo := cs.(*ssa.Go); isGo {
+			return false
+		}
+		lf := flows[cs.Parent()]
+		if lf == nil {
+			return false
+		}
+		if lf.Held(cs, key).Mode >= need {
+			continue
+		}
+		if !callersHold(flows, cs.Parent(), key, need, depth+1) {
+			return false
+		}
+	}
+	return true
+}
+
+// freshConstructor: g is a function of the v1 package whose every return hands out (as its first result) a value of the named
+// type that it allocated itself, or nil.
+func freshConstructor(g *ssa.Function, typeName string) bool {
+	if g == nil || core.FuncPkgPath(g) != scPkg || len(g.Blocks) == 0 {
+		return false
+	}
+	n := 0
+	for _, b := range g.Blocks {
+		ret, ok := b.Instrs[len(b.Instrs)-1].(*ssa.Return)
+		if !ok || b == g.Recover || len(ret.Results) == 0 {
+			continue
+		}
+		switch x := ret.Results[0].(type) {
+		case *ssa.Alloc:
+			if core.TypeName(x.Type()) != typeName {
+				return false
+			}
+			n++
+		case *ssa.Const:
+			if !x.IsNil() {
+				return false
+			}
+		default:
+			return false
+		}
+	}
+	return n > 0
 }
